@@ -253,7 +253,9 @@ theorem c04_pattern_some (ext : Ext) (r : NetRule) (q : Request) (hwf : r.WellFo
 
 /-- `/regex/` rules: when the regex model answers, the pattern conjunct is the SEARCH of the parsed
     expression (`(?i)` unless `$match-case`) in the target — stated with the answer as a hypothesis, not
-    through `getD false`. -/
+    through `getD false`.  (Group P3: "the parsed expression" of a `$match-case` text is GO's tree,
+    `Re.goTree`, which for expressions like `A.|[aA]` is not the textbook reading; in terms of the written
+    expression: `c04_regex_matchcase_written`, `c04_regex_ci_written`, Props/C04Quirk.lean.) -/
 theorem c04_regex_some (ext : Ext) (r : NetRule) (q : Request) (hwf : r.WellFormed) (hq : q.InDomain)
     (hre : UF.isRegexPattern r.pattern = true) (b : Bool)
     (hb : modelPat r.pattern (r.isEnabled Facts.OptionMatchCase) (specTarget r q) = some b) :
